@@ -1,7 +1,7 @@
 (* C01: lifting the sharded computations to the quantified statements *)
 From Coq Require Import ZArith NArith List Bool String Lia PrimFloat.
 From PyLib Require Import PyVal PyBuiltins B64 B64Facts Range.
-From Spec Require Import CalSpec.
+From Spec Require Import CalSpec CivilOfJdn.
 From Gen Require Import M_base M_Angle M_Epoch.
 From Proofs.C01 Require Import C01_defs.
 From Proofs.C01 Require C01_shard_00.
@@ -169,6 +169,23 @@ Proof.
   split; [apply jdn_nonneg, Hv|].
   pose proof (jdn_year_bounds y m d Hv) as Hb.
   pose proof (jan1_mono (y + 1) 6001 ltac:(lia)) as Hm. unfold jan1 in *. rewrite jan1_6001 in Hm. lia.
+Qed.
+
+Lemma daycount_bijection :
+  (forall y m d, valid y m d = true -> valid (fst (fst (next y m d))) (snd (fst (next y m d))) (snd (next y m d)) = true) /\
+  (forall y m d, valid y m d = true ->
+     jdn (fst (fst (next y m d))) (snd (fst (next y m d))) (snd (next y m d)) = jdn y m d + 1) /\
+  (forall y m d y' m' d', valid y m d = true -> valid y' m' d' = true ->
+     jdn y m d = jdn y' m' d' -> (y, m, d) = (y', m', d')) /\
+  (forall z, 0 <= z -> exists y m d, valid y m d = true /\ jdn y m d = z) /\
+  next 1582 10 4 = (1582, 10, 15).
+Proof.
+  split; [|split; [|split; [|split]]].
+  - intros y m d H. pose proof (next_valid y m d H) as Hn. destruct (next y m d) as [[y' m'] d']. exact Hn.
+  - intros y m d H. pose proof (jdn_next y m d H) as Hn. destruct (next y m d) as [[y' m'] d']. exact Hn.
+  - exact jdn_inj.
+  - exact jdn_surj.
+  - reflexivity.
 Qed.
 
 (* anchors: -4712-01-01 12h is 0.0; 1858-11-17 0h is MJD 0; 2000-01-01 12h is 2451545.0 *)
